@@ -161,6 +161,9 @@ pub struct Sess {
     pub tracing: bool,
     pub seed: Option<u64>,
     pub calls: u64,
+    /// The numbered line the cursor stood on before the latest
+    /// `continue_evaluating` call (None: an immediate line).
+    pub line_before_last_cont: Option<u64>,
 }
 
 /// A panic (or protocol breach) observed while driving the interpreter.
@@ -175,6 +178,7 @@ impl Sess {
             tracing: false,
             seed: None,
             calls: 0,
+            line_before_last_cont: None,
         }
     }
 
@@ -185,6 +189,7 @@ impl Sess {
             tracing: false,
             seed: None,
             calls: 0,
+            line_before_last_cont: None,
         }
     }
 
@@ -249,6 +254,7 @@ impl Sess {
     /// `continue_evaluating()`; legal only when running.
     pub fn cont(&mut self) -> Result<CallResult, Crash> {
         debug_assert_eq!(self.interp.get_state(), InterpreterState::Running);
+        self.line_before_last_cont = self.interp.verif_current_line();
         let interp = &mut self.interp;
         let res = catch(|| interp.continue_evaluating());
         self.finish(res, None)
